@@ -16,6 +16,7 @@ from ..engines import e9_safety as e9
 from ..engines import e3_tables as e3
 from ..engines import e2_state as e2
 from ..engines import e13_links as e13
+from ..engines import e10_pipeline as e10
 from ..extract import AnalysisBroken
 from .c12 import RECT, BASE, _public_methods
 from ..extract import VERIF
@@ -44,6 +45,8 @@ def run(chk):
              "throw (new, growing container, user callback, allocating callee), at every loop cut and at every exit, each output vertex not provably "
              "orphaned satisfies n->next->prev == n and n->prev->next == n and has not been deleted; `delete` only of provably orphaned vertices. "
              "This is what ~ClipperBase -> DisposeAllOutRecs needs to free the rings after a std::bad_alloc")
+    chk.rule("ITER.stable", "no range-for / iterator loop over a member container whose body (callees included, E2 summaries) can grow, shrink or "
+             "reassign that container")
     chk.rule("RECURSION", "every directly self-recursive library function (18): no container parameter by value (memory = depth x size); where the "
              "function uses a visited mark against cyclic data, every recursive call lies after the mark on every path")
     chk.rule("T.comparator", "LocMinSorter, IntersectListSort, HorzSegSorter are strict weak orders")
@@ -57,6 +60,7 @@ def run(chk):
         e9.rule_hot_guard(db, chk, cfg)
         e13.rule_links(db, chk, cfg)
         e9.rule_recursion(db, chk, cfg)
+        e10.rule_iter_stable(db, chk, cfg, lambda cls: e2.E2(db, chk, cfg, cls))
         # dangling OutPt / Active pointers in the sweep engine: the vectors that hold raw pointers into the output rings and the AEL
         # (horz_seg_list_, horz_join_list_, intersect_nodes_) and the owning outrec_list_ are empty whenever a public method returns -
         # CleanUp frees every OutPt/OutRec, so an entry that survives it dangles and is dereferenced by the next Execute
